@@ -385,6 +385,55 @@ pub fn handle(req: &J) -> J {
         let mut s = shared.borrow_mut();
         s.want_trace = wants("trace");
         s.want_executed = wants("executed");
+        if wants("forks") {
+            // JUMPIs whose target is pushed by the instruction right before them and is a JUMPDEST, from our own scan
+            // of the bytes (a JUMPI is not a JUMPDEST, so it can only be reached from that PUSH)
+            s.want_forks = true;
+            s.lim_iters = cfg.maximum_iterations_per_opcode;
+            s.lim_forks = cfg.maximum_forks_per_fork_target;
+            let n = code.len();
+            let mut is_start = vec![false; n];
+            let mut i = 0;
+            let mut prev: Option<(usize, Option<u128>)> = None;
+            let mut cands: Vec<(u32, u128)> = Vec::new();
+            while i < n {
+                is_start[i] = true;
+                let b = code[i];
+                if (0x60..=0x7f).contains(&b) {
+                    let w = (b - 0x5f) as usize;
+                    if i + w < n {
+                        let mut v: u128 = 0;
+                        let mut big = false;
+                        for &x in &code[i + 1..=i + w] {
+                            if v >> 120 != 0 {
+                                big = true;
+                            }
+                            v = (v << 8) | u128::from(x);
+                        }
+                        prev = Some((i, if big { None } else { Some(v) }));
+                        i += w + 1;
+                        continue;
+                    }
+                    break;
+                }
+                if b == 0x5f {
+                    prev = Some((i, Some(0)));
+                } else {
+                    if b == 0x57 {
+                        if let Some((_, Some(t))) = prev {
+                            cands.push((i as u32, t));
+                        }
+                    }
+                    prev = None;
+                }
+                i += 1;
+            }
+            for (ip, t) in cands {
+                if t < n as u128 && is_start[t as usize] && code[t as usize] == 0x5b {
+                    s.jumpi_target.insert(ip, t as u32);
+                }
+            }
+        }
         s.want_folds = wants("class_folds");
         // the declared minimum gas of the instruction at each offset, read from our own disassembly of the code: the
         // monitor adds these up along every path, independently of the VM's gas counter
